@@ -39,6 +39,13 @@ def gen_c20(tier, rng):
                         out.append(case("iter", ad, kind, cat, "0", vl(xs)))
                         if writable and cat == "lv":
                             out.append(case("iter", ad, kind, cat, "1", vl(xs)))
+                        # composed / moved adaptors and the post-increment loop (container classes only)
+                        if ad == "e" and kind not in ("carr", "il"):
+                            out.append(case("iter", "er", kind, cat, "0", vl(xs)))
+                            if cat == "lv":
+                                out.append(case("iter", "ep", kind, cat, "0", vl(xs)))
+                        if ad == "r" and kind not in ("carr", "il") and cat == "rv":
+                            out.append(case("iter", "rm", kind, cat, "0", vl(xs)))
     return out
 
 
